@@ -1,14 +1,383 @@
 /-
-  C03 — every training update follows the true gradient.  (Theorems are added by the proof work in
-  progress; see Lemmas/NetsC03.lean.)
+  C03 — every training update follows the true gradient.
+
+  Reading.  `g` is ANY matrix (in the training loop: the GEMINI gradient w.r.t. the predictions at
+  `y = infer θ X`, which Props/C02 proves is the derivative of the GEMINI).  By the chain rule the claim
+  "the direction handed to the optimiser is minus the gradient of GEMINI∘infer (minus the documented
+  penalty) w.r.t. every parameter" is: for every parameter the derivative of
+  `t ↦ ∑ i, ∑ k, g i k * infer(θ perturbed by t) i k  (- penalty)` at `0` is `-(direction)`.
+  This is proved here
+   * along EVERY direction of the whole parameter tuple at once (`…_direction`: parameters `θ + t·E`,
+     derivative `∑ -(grad θ) * E`), and
+   * entry by entry (`…_entry`: `bump2 W a c t` / `bump1 b c t` move one entry by `t`, see Lemmas/NetsC03.lean),
+  for all sizes, all real parameter values (nothing is assumed about closeness to the initialisation) and all `g`.
+  The only hypotheses are: `κ` symmetric (KernelRIM) and, for the first-layer parameters of the MLPs, that no
+  pre-activation is exactly 0 (`max(·,0)` has no derivative there).
+  Helper lemmas (stated along arbitrary differentiable parameter curves): Lemmas/NetsC03.lean.
 -/
-import GemVerif.Model.Nets
+import GemVerif.Lemmas.NetsC03
 
 namespace GemVerif.Props.C03
+open scoped BigOperators
 open GemVerif Model.Nets
+
+variable {n m d h K : ℕ}
 
 /-- The categorical model's direction is minus the soft-max pull-back of the GEMINI gradient. -/
 theorem categoricalGrad_eq {α : Type} [RealLike α] {n K : Nat} (y g : Fin n → Fin K → α) (i : Fin n) (k : Fin K) :
     categoricalGrad y g i k = -(tauHat y g i k) := rfl
+
+/-! ### soft-max -/
+
+/-- Over ℝ the row-max subtraction of `sklearn.utils.extmath.softmax` cancels: the model's `softmaxRow` is the
+    textbook soft-max. -/
+theorem softmaxRow_closed_form (z : Fin K → ℝ) (k : Fin K) :
+    softmaxRow z k = Real.exp (z k) / ∑ c, Real.exp (z c) :=
+  softmaxRow_eq z k
+
+/-- Every soft-max entry is positive. -/
+theorem softmaxRow_positive (z : Fin K → ℝ) (k : Fin K) : 0 < softmaxRow z k :=
+  softmaxRow_pos z k
+
+/-- Every (non-empty) soft-max row sums to 1. -/
+theorem softmaxRow_sums_to_one (z : Fin K → ℝ) (hK : 0 < K) : ∑ k, softmaxRow z k = 1 :=
+  softmaxRow_sum z hK
+
+/-- `softmax_jacobian`: `∑ k, g k * ∂ softmax(z) k / ∂ z l = y l * (g l - ∑ k, y k * g k)` with `y = softmax z`. -/
+theorem softmax_jacobian (z g : Fin K → ℝ) (l : Fin K) :
+    HasDerivAt (fun t => ∑ k, g k * softmaxRow (Function.update z l t) k)
+      (softmaxRow z l * (g l - ∑ k, softmaxRow z k * g k)) (z l) :=
+  GemVerif.softmax_jacobian z g l
+
+/-- The soft-max Jacobian along an arbitrary direction `v` of the logits: the pull-back of `g` is `tau`,
+    `tau l = y l * (g l - ∑ k, y k * g k)` (one row of `tauHat`). -/
+theorem softmax_jacobian_direction (z g v : Fin K → ℝ) :
+    HasDerivAt (fun t : ℝ => ∑ k, g k * softmaxRow (fun c => z c + t * v c) k)
+      (∑ l, softmaxRow z l * (g l - ∑ k, softmaxRow z k * g k) * v l) 0 := by
+  have h := hasDerivAt_softmaxRow_pairing (u := fun t c => z c + t * v c) (t₀ := 0)
+    (fun k => hasDerivAt_lin (z k) (v k)) g
+  simpa only [zero_mul, add_zero] using h
+
+/-! ### LinearModel -/
+
+/-- LinearModel: along every direction `(E, e)` of `(W, b)` the derivative of `⟨g, infer⟩` is
+    `⟨-gradW, E⟩ + ⟨-gradB, e⟩`: the list `[-X.T @ tau, -tau.sum(0)]` is minus the gradient. -/
+theorem linear_direction (X : Fin n → Fin d → ℝ) (W : Fin d → Fin K → ℝ) (b : Fin K → ℝ)
+    (g : Fin n → Fin K → ℝ) (E : Fin d → Fin K → ℝ) (e : Fin K → ℝ) :
+    HasDerivAt
+      (fun t : ℝ => ∑ i, ∑ k, g i k * linearInfer X (fun j k => W j k + t * E j k) (fun k => b k + t * e k) i k)
+      (∑ j, ∑ k, -(linearGradW X (linearInfer X W b) g j k) * E j k
+        + ∑ k, -(linearGradB (linearInfer X W b) g k) * e k) 0 := by
+  have h := linear_hasDerivAt_curve X (Wc := fun t j k => W j k + t * E j k) (bc := fun t k => b k + t * e k)
+    (t₀ := 0) (fun _ _ => hasDerivAt_lin _ _) (fun _ => hasDerivAt_lin _ _) g
+  simpa only [zero_mul, add_zero] using h
+
+/-- LinearModel, entry `(a, c)` of `W`. -/
+theorem linear_W_entry (X : Fin n → Fin d → ℝ) (W : Fin d → Fin K → ℝ) (b : Fin K → ℝ)
+    (g : Fin n → Fin K → ℝ) (a : Fin d) (c : Fin K) :
+    HasDerivAt (fun t : ℝ => ∑ i, ∑ k, g i k * linearInfer X (bump2 W a c t) b i k)
+      (-(linearGradW X (linearInfer X W b) g a c)) 0 := by
+  have h := linear_hasDerivAt_curve X (Wc := bump2 W a c) (bc := fun _ => b) (t₀ := 0)
+    (hasDerivAt_bump2 W a c) (fun _ => hasDerivAt_const _ _) g
+  simpa only [bump2_zero, sum_ind2, mul_zero, Finset.sum_const_zero, add_zero] using h
+
+/-- LinearModel, entry `c` of `b`. -/
+theorem linear_b_entry (X : Fin n → Fin d → ℝ) (W : Fin d → Fin K → ℝ) (b : Fin K → ℝ)
+    (g : Fin n → Fin K → ℝ) (c : Fin K) :
+    HasDerivAt (fun t : ℝ => ∑ i, ∑ k, g i k * linearInfer X W (bump1 b c t) i k)
+      (-(linearGradB (linearInfer X W b) g c)) 0 := by
+  have h := linear_hasDerivAt_curve X (Wc := fun _ => W) (bc := bump1 b c) (t₀ := 0)
+    (fun _ _ => hasDerivAt_const _ _) (hasDerivAt_bump1 b c) g
+  simpa only [bump1_zero, sum_ind1, mul_zero, Finset.sum_const_zero, zero_add] using h
+
+/-! ### CategoricalModel -/
+
+/-- CategoricalModel: along every direction `E` of the logits the derivative of `⟨g, softmax(logits)⟩` is
+    `⟨-grad, E⟩`. -/
+theorem categorical_direction (L g E : Fin n → Fin K → ℝ) :
+    HasDerivAt (fun t : ℝ => ∑ i, ∑ k, g i k * categoricalInfer (fun i k => L i k + t * E i k) i k)
+      (∑ i, ∑ k, -(categoricalGrad (categoricalInfer L) g i k) * E i k) 0 := by
+  have h := categorical_hasDerivAt_curve (Lc := fun t i k => L i k + t * E i k) (t₀ := 0)
+    (fun _ _ => hasDerivAt_lin _ _) g
+  simpa only [zero_mul, add_zero] using h
+
+/-- CategoricalModel, logit `(a, c)`. -/
+theorem categorical_entry (L g : Fin n → Fin K → ℝ) (a : Fin n) (c : Fin K) :
+    HasDerivAt (fun t : ℝ => ∑ i, ∑ k, g i k * categoricalInfer (bump2 L a c t) i k)
+      (-(categoricalGrad (categoricalInfer L) g a c)) 0 := by
+  have h := categorical_hasDerivAt_curve (Lc := bump2 L a c) (t₀ := 0) (hasDerivAt_bump2 L a c) g
+  simpa only [bump2_zero, sum_ind2] using h
+
+/-! ### RIM -/
+
+/-- RIM: after `_update_weights` the direction is minus the gradient of `⟨g, infer⟩ - reg * ∑ W²`
+    (the bias is not penalised). -/
+theorem rim_direction (reg : ℝ) (X : Fin n → Fin d → ℝ) (W : Fin d → Fin K → ℝ) (b : Fin K → ℝ)
+    (g : Fin n → Fin K → ℝ) (E : Fin d → Fin K → ℝ) (e : Fin K → ℝ) :
+    HasDerivAt
+      (fun t : ℝ =>
+        (∑ i, ∑ k, g i k * linearInfer X (fun j k => W j k + t * E j k) (fun k => b k + t * e k) i k)
+          - reg * ∑ j, ∑ k, (W j k + t * E j k) ^ 2)
+      (∑ j, ∑ k, -(rimGradW reg X W (linearInfer X W b) g j k) * E j k
+        + ∑ k, -(linearGradB (linearInfer X W b) g k) * e k) 0 := by
+  have h := rim_hasDerivAt_curve reg X (Wc := fun t j k => W j k + t * E j k) (bc := fun t k => b k + t * e k)
+    (t₀ := 0) (fun _ _ => hasDerivAt_lin _ _) (fun _ => hasDerivAt_lin _ _) g
+  simpa only [zero_mul, add_zero] using h
+
+/-- RIM, entry `(a, c)` of `W`. -/
+theorem rim_W_entry (reg : ℝ) (X : Fin n → Fin d → ℝ) (W : Fin d → Fin K → ℝ) (b : Fin K → ℝ)
+    (g : Fin n → Fin K → ℝ) (a : Fin d) (c : Fin K) :
+    HasDerivAt
+      (fun t : ℝ => (∑ i, ∑ k, g i k * linearInfer X (bump2 W a c t) b i k)
+        - reg * ∑ j, ∑ k, bump2 W a c t j k ^ 2)
+      (-(rimGradW reg X W (linearInfer X W b) g a c)) 0 := by
+  have h := rim_hasDerivAt_curve reg X (Wc := bump2 W a c) (bc := fun _ => b) (t₀ := 0)
+    (hasDerivAt_bump2 W a c) (fun _ => hasDerivAt_const _ _) g
+  simpa only [bump2_zero, sum_ind2, mul_zero, Finset.sum_const_zero, add_zero] using h
+
+/-- RIM, entry `c` of `b`. -/
+theorem rim_b_entry (reg : ℝ) (X : Fin n → Fin d → ℝ) (W : Fin d → Fin K → ℝ) (b : Fin K → ℝ)
+    (g : Fin n → Fin K → ℝ) (c : Fin K) :
+    HasDerivAt
+      (fun t : ℝ => (∑ i, ∑ k, g i k * linearInfer X W (bump1 b c t) i k) - reg * ∑ j, ∑ k, W j k ^ 2)
+      (-(linearGradB (linearInfer X W b) g c)) 0 := by
+  have h := rim_hasDerivAt_curve reg X (Wc := fun _ => W) (bc := bump1 b c) (t₀ := 0)
+    (fun _ _ => hasDerivAt_const _ _) (hasDerivAt_bump1 b c) g
+  simpa only [bump1_zero, sum_ind1, mul_zero, Finset.sum_const_zero, zero_add] using h
+
+/-! ### KernelRIM -/
+
+/-- KernelRIM with a symmetric training kernel `κ`: whatever rows `Xb` of the kernel form the batch, the direction
+    is minus the gradient of `⟨g, infer⟩ - reg * ∑ k, ∑ j, ∑ l, W j k * κ j l * W l k` (`= reg·tr(Wᵀ κ W)`). -/
+theorem kernelRim_direction (reg : ℝ) (κ : Fin n → Fin n → ℝ) (hκ : ∀ j l, κ j l = κ l j)
+    (Xb : Fin m → Fin n → ℝ) (W : Fin n → Fin K → ℝ) (b : Fin K → ℝ)
+    (g : Fin m → Fin K → ℝ) (E : Fin n → Fin K → ℝ) (e : Fin K → ℝ) :
+    HasDerivAt
+      (fun t : ℝ =>
+        (∑ i, ∑ k, g i k * linearInfer Xb (fun j k => W j k + t * E j k) (fun k => b k + t * e k) i k)
+          - reg * ∑ k, ∑ j, ∑ l, (W j k + t * E j k) * κ j l * (W l k + t * E l k))
+      (∑ j, ∑ k, -(kernelRimGradW reg κ Xb W (linearInfer Xb W b) g j k) * E j k
+        + ∑ k, -(linearGradB (linearInfer Xb W b) g k) * e k) 0 := by
+  have h := kernelRim_hasDerivAt_curve reg κ hκ Xb (Wc := fun t j k => W j k + t * E j k)
+    (bc := fun t k => b k + t * e k) (t₀ := 0) (fun _ _ => hasDerivAt_lin _ _) (fun _ => hasDerivAt_lin _ _) g
+  simpa only [zero_mul, add_zero] using h
+
+/-- KernelRIM, entry `(a, c)` of `W`. -/
+theorem kernelRim_W_entry (reg : ℝ) (κ : Fin n → Fin n → ℝ) (hκ : ∀ j l, κ j l = κ l j)
+    (Xb : Fin m → Fin n → ℝ) (W : Fin n → Fin K → ℝ) (b : Fin K → ℝ)
+    (g : Fin m → Fin K → ℝ) (a : Fin n) (c : Fin K) :
+    HasDerivAt
+      (fun t : ℝ => (∑ i, ∑ k, g i k * linearInfer Xb (bump2 W a c t) b i k)
+        - reg * ∑ k, ∑ j, ∑ l, bump2 W a c t j k * κ j l * bump2 W a c t l k)
+      (-(kernelRimGradW reg κ Xb W (linearInfer Xb W b) g a c)) 0 := by
+  have h := kernelRim_hasDerivAt_curve reg κ hκ Xb (Wc := bump2 W a c) (bc := fun _ => b) (t₀ := 0)
+    (hasDerivAt_bump2 W a c) (fun _ => hasDerivAt_const _ _) g
+  simpa only [bump2_zero, sum_ind2, mul_zero, Finset.sum_const_zero, add_zero] using h
+
+/-- KernelRIM, entry `c` of `b`. -/
+theorem kernelRim_b_entry (reg : ℝ) (κ : Fin n → Fin n → ℝ) (hκ : ∀ j l, κ j l = κ l j)
+    (Xb : Fin m → Fin n → ℝ) (W : Fin n → Fin K → ℝ) (b : Fin K → ℝ)
+    (g : Fin m → Fin K → ℝ) (c : Fin K) :
+    HasDerivAt
+      (fun t : ℝ => (∑ i, ∑ k, g i k * linearInfer Xb W (bump1 b c t) i k)
+        - reg * ∑ k, ∑ j, ∑ l, W j k * κ j l * W l k)
+      (-(linearGradB (linearInfer Xb W b) g c)) 0 := by
+  have h := kernelRim_hasDerivAt_curve reg κ hκ Xb (Wc := fun _ => W) (bc := bump1 b c) (t₀ := 0)
+    (fun _ _ => hasDerivAt_const _ _) (hasDerivAt_bump1 b c) g
+  simpa only [bump1_zero, sum_ind1, mul_zero, Finset.sum_const_zero, zero_add] using h
+
+/- the symmetry hypothesis is satisfiable (identity kernel) -/
+example : ∃ κ : Fin 2 → Fin 2 → ℝ, ∀ j l, κ j l = κ l j :=
+  ⟨fun j l => if j = l then 1 else 0, fun j l => by simp [eq_comm]⟩
+
+/-! ### MLPModel
+
+`mlpGrads X H W2 y g` is called, as in `_compute_grads`, with the retained hidden activation
+`H = hidden X W1 b1` and the predictions `y = mlpInfer X W1 b1 W2 b2`. -/
+
+/-- MLPModel, output-side parameters `(W2, b2)`, along every direction, with NO differentiability condition. -/
+theorem mlp_outer_direction (X : Fin n → Fin d → ℝ) (W1 : Fin d → Fin h → ℝ) (b1 : Fin h → ℝ)
+    (W2 : Fin h → Fin K → ℝ) (b2 : Fin K → ℝ) (g : Fin n → Fin K → ℝ) (E2 : Fin h → Fin K → ℝ) (e2 : Fin K → ℝ) :
+    HasDerivAt
+      (fun t : ℝ => ∑ i, ∑ k, g i k *
+        mlpInfer X W1 b1 (fun j k => W2 j k + t * E2 j k) (fun k => b2 k + t * e2 k) i k)
+      (∑ j, ∑ k, -((mlpGrads X (hidden X W1 b1) W2 (mlpInfer X W1 b1 W2 b2) g).W2 j k) * E2 j k
+        + ∑ k, -((mlpGrads X (hidden X W1 b1) W2 (mlpInfer X W1 b1 W2 b2) g).b2 k) * e2 k) 0 := by
+  have h := mlp_outer_hasDerivAt_curve X W1 b1 (W2c := fun t j k => W2 j k + t * E2 j k)
+    (b2c := fun t k => b2 k + t * e2 k) (t₀ := 0) (fun _ _ => hasDerivAt_lin _ _) (fun _ => hasDerivAt_lin _ _) g
+  simpa only [zero_mul, add_zero] using h
+
+/-- MLPModel, all parameters `(W1, b1, W2, b2)` at once along every direction, at any point where no
+    pre-activation `X @ W1 + b1` is exactly 0. -/
+theorem mlp_direction (X : Fin n → Fin d → ℝ) (W1 : Fin d → Fin h → ℝ) (b1 : Fin h → ℝ)
+    (W2 : Fin h → Fin K → ℝ) (b2 : Fin K → ℝ) (hact : ∀ i j, affine X W1 b1 i j ≠ 0) (g : Fin n → Fin K → ℝ)
+    (E1 : Fin d → Fin h → ℝ) (e1 : Fin h → ℝ) (E2 : Fin h → Fin K → ℝ) (e2 : Fin K → ℝ) :
+    HasDerivAt
+      (fun t : ℝ => ∑ i, ∑ k, g i k *
+        mlpInfer X (fun a j => W1 a j + t * E1 a j) (fun j => b1 j + t * e1 j)
+          (fun j k => W2 j k + t * E2 j k) (fun k => b2 k + t * e2 k) i k)
+      (∑ a, ∑ j, -((mlpGrads X (hidden X W1 b1) W2 (mlpInfer X W1 b1 W2 b2) g).W1 a j) * E1 a j
+        + ∑ j, -((mlpGrads X (hidden X W1 b1) W2 (mlpInfer X W1 b1 W2 b2) g).b1 j) * e1 j
+        + ∑ j, ∑ k, -((mlpGrads X (hidden X W1 b1) W2 (mlpInfer X W1 b1 W2 b2) g).W2 j k) * E2 j k
+        + ∑ k, -((mlpGrads X (hidden X W1 b1) W2 (mlpInfer X W1 b1 W2 b2) g).b2 k) * e2 k) 0 := by
+  have h := mlp_hasDerivAt_curve X (W1c := fun t a j => W1 a j + t * E1 a j) (b1c := fun t j => b1 j + t * e1 j)
+    (W2c := fun t j k => W2 j k + t * E2 j k) (b2c := fun t k => b2 k + t * e2 k) (t₀ := 0)
+    (fun _ _ => hasDerivAt_lin _ _) (fun _ => hasDerivAt_lin _ _) (fun _ _ => hasDerivAt_lin _ _)
+    (fun _ => hasDerivAt_lin _ _) (by simpa only [zero_mul, add_zero] using hact) g
+  simpa only [zero_mul, add_zero] using h
+
+/-- MLPModel, entry `(a, j)` of `W1` (no pre-activation exactly 0). -/
+theorem mlp_W1_entry (X : Fin n → Fin d → ℝ) (W1 : Fin d → Fin h → ℝ) (b1 : Fin h → ℝ)
+    (W2 : Fin h → Fin K → ℝ) (b2 : Fin K → ℝ) (hact : ∀ i j, affine X W1 b1 i j ≠ 0) (g : Fin n → Fin K → ℝ)
+    (a : Fin d) (j : Fin h) :
+    HasDerivAt (fun t : ℝ => ∑ i, ∑ k, g i k * mlpInfer X (bump2 W1 a j t) b1 W2 b2 i k)
+      (-((mlpGrads X (hidden X W1 b1) W2 (mlpInfer X W1 b1 W2 b2) g).W1 a j)) 0 := by
+  have h := mlp_hasDerivAt_curve X (W1c := bump2 W1 a j) (b1c := fun _ => b1) (W2c := fun _ => W2)
+    (b2c := fun _ => b2) (t₀ := 0) (hasDerivAt_bump2 W1 a j) (fun _ => hasDerivAt_const _ _) (fun _ _ => hasDerivAt_const _ _) (fun _ => hasDerivAt_const _ _)
+    (by simpa only [bump2_zero] using hact) g
+  simpa only [bump2_zero, sum_ind2, mul_zero, Finset.sum_const_zero, add_zero] using h
+
+/-- MLPModel, entry `j` of `b1` (no pre-activation exactly 0). -/
+theorem mlp_b1_entry (X : Fin n → Fin d → ℝ) (W1 : Fin d → Fin h → ℝ) (b1 : Fin h → ℝ)
+    (W2 : Fin h → Fin K → ℝ) (b2 : Fin K → ℝ) (hact : ∀ i j, affine X W1 b1 i j ≠ 0) (g : Fin n → Fin K → ℝ)
+    (j : Fin h) :
+    HasDerivAt (fun t : ℝ => ∑ i, ∑ k, g i k * mlpInfer X W1 (bump1 b1 j t) W2 b2 i k)
+      (-((mlpGrads X (hidden X W1 b1) W2 (mlpInfer X W1 b1 W2 b2) g).b1 j)) 0 := by
+  have h := mlp_hasDerivAt_curve X (W1c := fun _ => W1) (b1c := bump1 b1 j) (W2c := fun _ => W2)
+    (b2c := fun _ => b2) (t₀ := 0) (fun _ _ => hasDerivAt_const _ _) (hasDerivAt_bump1 b1 j) (fun _ _ => hasDerivAt_const _ _) (fun _ => hasDerivAt_const _ _)
+    (by simpa only [bump1_zero] using hact) g
+  simpa only [bump1_zero, sum_ind1, mul_zero, Finset.sum_const_zero, add_zero, zero_add] using h
+
+/-- MLPModel, entry `(j, c)` of `W2` (unconditional). -/
+theorem mlp_W2_entry (X : Fin n → Fin d → ℝ) (W1 : Fin d → Fin h → ℝ) (b1 : Fin h → ℝ)
+    (W2 : Fin h → Fin K → ℝ) (b2 : Fin K → ℝ) (g : Fin n → Fin K → ℝ) (j : Fin h) (c : Fin K) :
+    HasDerivAt (fun t : ℝ => ∑ i, ∑ k, g i k * mlpInfer X W1 b1 (bump2 W2 j c t) b2 i k)
+      (-((mlpGrads X (hidden X W1 b1) W2 (mlpInfer X W1 b1 W2 b2) g).W2 j c)) 0 := by
+  have h := mlp_outer_hasDerivAt_curve X W1 b1 (W2c := bump2 W2 j c) (b2c := fun _ => b2) (t₀ := 0)
+    (hasDerivAt_bump2 W2 j c) (fun _ => hasDerivAt_const _ _) g
+  simpa only [bump2_zero, sum_ind2, mul_zero, Finset.sum_const_zero, add_zero] using h
+
+/-- MLPModel, entry `c` of `b2` (unconditional). -/
+theorem mlp_b2_entry (X : Fin n → Fin d → ℝ) (W1 : Fin d → Fin h → ℝ) (b1 : Fin h → ℝ)
+    (W2 : Fin h → Fin K → ℝ) (b2 : Fin K → ℝ) (g : Fin n → Fin K → ℝ) (c : Fin K) :
+    HasDerivAt (fun t : ℝ => ∑ i, ∑ k, g i k * mlpInfer X W1 b1 W2 (bump1 b2 c t) i k)
+      (-((mlpGrads X (hidden X W1 b1) W2 (mlpInfer X W1 b1 W2 b2) g).b2 c)) 0 := by
+  have h := mlp_outer_hasDerivAt_curve X W1 b1 (W2c := fun _ => W2) (b2c := bump1 b2 c) (t₀ := 0)
+    (fun _ _ => hasDerivAt_const _ _) (hasDerivAt_bump1 b2 c) g
+  simpa only [bump1_zero, sum_ind1, mul_zero, Finset.sum_const_zero, zero_add] using h
+
+/-- The condition on the pre-activations in `mlp_W1_entry` cannot be dropped: there is an MLP (1 sample, 1 feature,
+    1 hidden unit, 2 clusters) with a zero pre-activation for which `⟨g, infer⟩` has NO derivative with respect to
+    `W1` (the two one-sided slopes are 0 and 1/4), so no direction whatsoever can be "the gradient" there. -/
+theorem mlp_W1_entry_needs_hact :
+    ∃ (X : Fin 1 → Fin 1 → ℝ) (W1 : Fin 1 → Fin 1 → ℝ) (b1 : Fin 1 → ℝ) (W2 : Fin 1 → Fin 2 → ℝ) (b2 : Fin 2 → ℝ)
+      (g : Fin 1 → Fin 2 → ℝ) (a j : Fin 1),
+      ¬ DifferentiableAt ℝ (fun t : ℝ => ∑ i, ∑ k, g i k * mlpInfer X (bump2 W1 a j t) b1 W2 b2 i k) 0 := by
+  refine ⟨fun _ _ => 1, fun _ _ => 0, fun _ => 0, fun _ k => if k = 0 then 1 else 0, fun _ => 0,
+    fun _ k => if k = 0 then 1 else 0, 0, 0, ?_⟩
+  simp only [kink_example_eq]
+  exact kink_example_not_differentiable
+
+/-! ### SparseMLPModel (MLP plus the skip connection `X @ W_skip`)
+
+`y = sparseMlpInfer X W1 b1 W2 b2 Ws`; the proximal step on `W_skip`/`W1` is C05/C06's subject, the direction
+handed to the optimiser is this one. -/
+
+/-- SparseMLPModel, output-side parameters `(W2, b2, W_skip)`, along every direction, with NO differentiability
+    condition. -/
+theorem sparse_outer_direction (X : Fin n → Fin d → ℝ) (W1 : Fin d → Fin h → ℝ) (b1 : Fin h → ℝ)
+    (W2 : Fin h → Fin K → ℝ) (b2 : Fin K → ℝ) (Ws : Fin d → Fin K → ℝ) (g : Fin n → Fin K → ℝ)
+    (E2 : Fin h → Fin K → ℝ) (e2 : Fin K → ℝ) (Es : Fin d → Fin K → ℝ) :
+    HasDerivAt
+      (fun t : ℝ => ∑ i, ∑ k, g i k *
+        sparseMlpInfer X W1 b1 (fun j k => W2 j k + t * E2 j k) (fun k => b2 k + t * e2 k)
+          (fun a k => Ws a k + t * Es a k) i k)
+      (∑ j, ∑ k, -((mlpGrads X (hidden X W1 b1) W2 (sparseMlpInfer X W1 b1 W2 b2 Ws) g).W2 j k) * E2 j k
+        + ∑ k, -((mlpGrads X (hidden X W1 b1) W2 (sparseMlpInfer X W1 b1 W2 b2 Ws) g).b2 k) * e2 k
+        + ∑ a, ∑ k, -((mlpGrads X (hidden X W1 b1) W2 (sparseMlpInfer X W1 b1 W2 b2 Ws) g).Ws a k) * Es a k) 0 := by
+  have h := sparse_outer_hasDerivAt_curve X W1 b1 (W2c := fun t j k => W2 j k + t * E2 j k)
+    (b2c := fun t k => b2 k + t * e2 k) (Wsc := fun t a k => Ws a k + t * Es a k) (t₀ := 0)
+    (fun _ _ => hasDerivAt_lin _ _) (fun _ => hasDerivAt_lin _ _) (fun _ _ => hasDerivAt_lin _ _) g
+  simpa only [zero_mul, add_zero] using h
+
+/-- SparseMLPModel, all parameters `(W1, b1, W2, b2, W_skip)` at once along every direction, at any point where
+    no pre-activation `X @ W1 + b1` is exactly 0. -/
+theorem sparse_direction (X : Fin n → Fin d → ℝ) (W1 : Fin d → Fin h → ℝ) (b1 : Fin h → ℝ)
+    (W2 : Fin h → Fin K → ℝ) (b2 : Fin K → ℝ) (Ws : Fin d → Fin K → ℝ) (hact : ∀ i j, affine X W1 b1 i j ≠ 0)
+    (g : Fin n → Fin K → ℝ)
+    (E1 : Fin d → Fin h → ℝ) (e1 : Fin h → ℝ) (E2 : Fin h → Fin K → ℝ) (e2 : Fin K → ℝ) (Es : Fin d → Fin K → ℝ) :
+    HasDerivAt
+      (fun t : ℝ => ∑ i, ∑ k, g i k *
+        sparseMlpInfer X (fun a j => W1 a j + t * E1 a j) (fun j => b1 j + t * e1 j)
+          (fun j k => W2 j k + t * E2 j k) (fun k => b2 k + t * e2 k) (fun a k => Ws a k + t * Es a k) i k)
+      (∑ a, ∑ j, -((mlpGrads X (hidden X W1 b1) W2 (sparseMlpInfer X W1 b1 W2 b2 Ws) g).W1 a j) * E1 a j
+        + ∑ j, -((mlpGrads X (hidden X W1 b1) W2 (sparseMlpInfer X W1 b1 W2 b2 Ws) g).b1 j) * e1 j
+        + ∑ j, ∑ k, -((mlpGrads X (hidden X W1 b1) W2 (sparseMlpInfer X W1 b1 W2 b2 Ws) g).W2 j k) * E2 j k
+        + ∑ k, -((mlpGrads X (hidden X W1 b1) W2 (sparseMlpInfer X W1 b1 W2 b2 Ws) g).b2 k) * e2 k
+        + ∑ a, ∑ k, -((mlpGrads X (hidden X W1 b1) W2 (sparseMlpInfer X W1 b1 W2 b2 Ws) g).Ws a k) * Es a k) 0 := by
+  have h := sparse_hasDerivAt_curve X (W1c := fun t a j => W1 a j + t * E1 a j)
+    (b1c := fun t j => b1 j + t * e1 j) (W2c := fun t j k => W2 j k + t * E2 j k)
+    (b2c := fun t k => b2 k + t * e2 k) (Wsc := fun t a k => Ws a k + t * Es a k) (t₀ := 0)
+    (fun _ _ => hasDerivAt_lin _ _) (fun _ => hasDerivAt_lin _ _) (fun _ _ => hasDerivAt_lin _ _)
+    (fun _ => hasDerivAt_lin _ _) (fun _ _ => hasDerivAt_lin _ _)
+    (by simpa only [zero_mul, add_zero] using hact) g
+  simpa only [zero_mul, add_zero] using h
+
+/-- SparseMLPModel, entry `(a, j)` of `W1` (no pre-activation exactly 0). -/
+theorem sparse_W1_entry (X : Fin n → Fin d → ℝ) (W1 : Fin d → Fin h → ℝ) (b1 : Fin h → ℝ)
+    (W2 : Fin h → Fin K → ℝ) (b2 : Fin K → ℝ) (Ws : Fin d → Fin K → ℝ) (hact : ∀ i j, affine X W1 b1 i j ≠ 0)
+    (g : Fin n → Fin K → ℝ) (a : Fin d) (j : Fin h) :
+    HasDerivAt (fun t : ℝ => ∑ i, ∑ k, g i k * sparseMlpInfer X (bump2 W1 a j t) b1 W2 b2 Ws i k)
+      (-((mlpGrads X (hidden X W1 b1) W2 (sparseMlpInfer X W1 b1 W2 b2 Ws) g).W1 a j)) 0 := by
+  have h := sparse_hasDerivAt_curve X (W1c := bump2 W1 a j) (b1c := fun _ => b1) (W2c := fun _ => W2)
+    (b2c := fun _ => b2) (Wsc := fun _ => Ws) (t₀ := 0) (hasDerivAt_bump2 W1 a j) (fun _ => hasDerivAt_const _ _) (fun _ _ => hasDerivAt_const _ _) (fun _ => hasDerivAt_const _ _) (fun _ _ => hasDerivAt_const _ _)
+    (by simpa only [bump2_zero] using hact) g
+  simpa only [bump2_zero, sum_ind2, mul_zero, Finset.sum_const_zero, add_zero] using h
+
+/-- SparseMLPModel, entry `j` of `b1` (no pre-activation exactly 0). -/
+theorem sparse_b1_entry (X : Fin n → Fin d → ℝ) (W1 : Fin d → Fin h → ℝ) (b1 : Fin h → ℝ)
+    (W2 : Fin h → Fin K → ℝ) (b2 : Fin K → ℝ) (Ws : Fin d → Fin K → ℝ) (hact : ∀ i j, affine X W1 b1 i j ≠ 0)
+    (g : Fin n → Fin K → ℝ) (j : Fin h) :
+    HasDerivAt (fun t : ℝ => ∑ i, ∑ k, g i k * sparseMlpInfer X W1 (bump1 b1 j t) W2 b2 Ws i k)
+      (-((mlpGrads X (hidden X W1 b1) W2 (sparseMlpInfer X W1 b1 W2 b2 Ws) g).b1 j)) 0 := by
+  have h := sparse_hasDerivAt_curve X (W1c := fun _ => W1) (b1c := bump1 b1 j) (W2c := fun _ => W2)
+    (b2c := fun _ => b2) (Wsc := fun _ => Ws) (t₀ := 0) (fun _ _ => hasDerivAt_const _ _) (hasDerivAt_bump1 b1 j) (fun _ _ => hasDerivAt_const _ _) (fun _ => hasDerivAt_const _ _) (fun _ _ => hasDerivAt_const _ _)
+    (by simpa only [bump1_zero] using hact) g
+  simpa only [bump1_zero, sum_ind1, mul_zero, Finset.sum_const_zero, add_zero, zero_add] using h
+
+/-- SparseMLPModel, entry `(j, c)` of `W2` (unconditional). -/
+theorem sparse_W2_entry (X : Fin n → Fin d → ℝ) (W1 : Fin d → Fin h → ℝ) (b1 : Fin h → ℝ)
+    (W2 : Fin h → Fin K → ℝ) (b2 : Fin K → ℝ) (Ws : Fin d → Fin K → ℝ) (g : Fin n → Fin K → ℝ)
+    (j : Fin h) (c : Fin K) :
+    HasDerivAt (fun t : ℝ => ∑ i, ∑ k, g i k * sparseMlpInfer X W1 b1 (bump2 W2 j c t) b2 Ws i k)
+      (-((mlpGrads X (hidden X W1 b1) W2 (sparseMlpInfer X W1 b1 W2 b2 Ws) g).W2 j c)) 0 := by
+  have h := sparse_outer_hasDerivAt_curve X W1 b1 (W2c := bump2 W2 j c) (b2c := fun _ => b2)
+    (Wsc := fun _ => Ws) (t₀ := 0) (hasDerivAt_bump2 W2 j c) (fun _ => hasDerivAt_const _ _) (fun _ _ => hasDerivAt_const _ _) g
+  simpa only [bump2_zero, sum_ind2, mul_zero, Finset.sum_const_zero, add_zero] using h
+
+/-- SparseMLPModel, entry `c` of `b2` (unconditional). -/
+theorem sparse_b2_entry (X : Fin n → Fin d → ℝ) (W1 : Fin d → Fin h → ℝ) (b1 : Fin h → ℝ)
+    (W2 : Fin h → Fin K → ℝ) (b2 : Fin K → ℝ) (Ws : Fin d → Fin K → ℝ) (g : Fin n → Fin K → ℝ) (c : Fin K) :
+    HasDerivAt (fun t : ℝ => ∑ i, ∑ k, g i k * sparseMlpInfer X W1 b1 W2 (bump1 b2 c t) Ws i k)
+      (-((mlpGrads X (hidden X W1 b1) W2 (sparseMlpInfer X W1 b1 W2 b2 Ws) g).b2 c)) 0 := by
+  have h := sparse_outer_hasDerivAt_curve X W1 b1 (W2c := fun _ => W2) (b2c := bump1 b2 c)
+    (Wsc := fun _ => Ws) (t₀ := 0) (fun _ _ => hasDerivAt_const _ _) (hasDerivAt_bump1 b2 c) (fun _ _ => hasDerivAt_const _ _) g
+  simpa only [bump1_zero, sum_ind1, mul_zero, Finset.sum_const_zero, add_zero, zero_add] using h
+
+/-- SparseMLPModel, entry `(a, c)` of `W_skip` (unconditional). -/
+theorem sparse_Ws_entry (X : Fin n → Fin d → ℝ) (W1 : Fin d → Fin h → ℝ) (b1 : Fin h → ℝ)
+    (W2 : Fin h → Fin K → ℝ) (b2 : Fin K → ℝ) (Ws : Fin d → Fin K → ℝ) (g : Fin n → Fin K → ℝ)
+    (a : Fin d) (c : Fin K) :
+    HasDerivAt (fun t : ℝ => ∑ i, ∑ k, g i k * sparseMlpInfer X W1 b1 W2 b2 (bump2 Ws a c t) i k)
+      (-((mlpGrads X (hidden X W1 b1) W2 (sparseMlpInfer X W1 b1 W2 b2 Ws) g).Ws a c)) 0 := by
+  have h := sparse_outer_hasDerivAt_curve X W1 b1 (W2c := fun _ => W2) (b2c := fun _ => b2)
+    (Wsc := bump2 Ws a c) (t₀ := 0) (fun _ _ => hasDerivAt_const _ _) (fun _ => hasDerivAt_const _ _) (hasDerivAt_bump2 Ws a c) g
+  simpa only [bump2_zero, sum_ind2, mul_zero, Finset.sum_const_zero, zero_add] using h
+
+/- the hypothesis `hact` is satisfiable (it holds for almost every parameter value; here a 2×1 input, 2 hidden units,
+   one active and one inactive) -/
+example : ∃ (X : Fin 2 → Fin 1 → ℝ) (W1 : Fin 1 → Fin 2 → ℝ) (b1 : Fin 2 → ℝ), ∀ i j, affine X W1 b1 i j ≠ 0 :=
+  ⟨fun _ _ => 1, fun _ j => if j = 0 then 1 else -1, fun _ => 0, fun i j => by
+    rw [affine_apply]; by_cases hj : j = 0 <;> simp [hj]⟩
 
 end GemVerif.Props.C03
